@@ -104,6 +104,15 @@ CallerWaitLeave(r) ==
   /\ pc' = [pc EXCEPT ![r] = "wleft"]
   /\ UNCHANGED <<kind, lock, ledger, inflight, outq, fut, gpc, gr, notifq, lost, pendset, peak>>
 
+\* AsyncServer only: after a wake-up that found the server full again (or after a slow lock acquisition) nothing is left of
+\* the time budget: `asyncio.wait_for(cond.wait(), t <= 0)` cancels the wait before it starts - the lock is never released,
+\* the caller is never on the waiter list - and ServerBacklogFull is raised straight from the check.
+CallerNoTimeLeft(r) ==
+  /\ Async /\ pc[r] = "check" /\ lock = r
+  /\ Cardinality(ledger) >= Capacity /\ kind[r] # "bp"
+  /\ lock' = 0 /\ pc' = [pc EXCEPT ![r] = "rejected"]
+  /\ UNCHANGED <<kind, waiters, ledger, inflight, outq, fut, gpc, gr, notifq, lost, pendset, peak>>
+
 CallerWaitReject(r) ==
   /\ pc[r] = "wreject" /\ lock = r
   /\ lock' = 0 /\ pc' = [pc EXCEPT ![r] = "rejected"]
@@ -231,6 +240,7 @@ Quiescent == (\A r \in Req : Final(r)) /\ inflight = {} /\ outq = <<>> /\ gpc = 
 Next ==
   \/ \E r \in Req :
         \/ CallerLock(r) \/ CallerCheck(r) \/ CallerWaitTimeout(r) \/ CallerWaitLeave(r) \/ CallerWaitReject(r)
+        \/ CallerNoTimeLeft(r)
         \/ CallerFirst(r) \/ CallerSecond(r) \/ CallerGotResult(r) \/ CallerDeadline(r) \/ CallerCancel(r)
         \/ StreamAbandon(r) \/ PipeFinish(r) \/ LoopSet(r)
   \/ GatherGet \/ GatherPop \/ GatherMiss \/ GatherCheck \/ GatherSet \/ GatherNotify \/ Notify
